@@ -293,10 +293,15 @@ static void scripted(Tape &t, Ctx &c, qint64 size, int b, int fault)
     const bool withHash = t.mode() == vh::Tape::Enum ? true : !t.prob(1, 3);
     if (!withHash && fault == BitFlip)
         fault = None;
-    std::string desc = std::string("scripted-sender ") + (withHash ? "" : "offer-without-hash ") + "size=" + std::to_string(size) + " block=" + std::to_string(b) + " blocks=" + std::to_string(nBlocks) + " fault=" + faultNames[fault] + (fault != None ? "@" + std::to_string(faultAt) : std::string());
+    // a sender that stops and closes at the first refused block, or one that goes on to the end whatever the replies say
+    // (blocks reordered on the way arrive like that: the sender has sent them all)
+    const bool persistent = t.mode() == vh::Tape::Enum ? false : t.prob(1, 3);
+    std::string desc = std::string("scripted-sender ") + (withHash ? "" : "offer-without-hash ") + (persistent ? "sender-ignores-refusals " : "") + "size=" + std::to_string(size) + " block=" + std::to_string(b) + " blocks=" + std::to_string(nBlocks) + " fault=" + faultNames[fault] + (fault != None ? "@" + std::to_string(faultAt) : std::string());
     c.sample([&] { return desc; });
     c.label(std::string("fault:") + faultNames[fault]);
     c.label(withHash ? "offer:with-hash" : "offer:without-hash");
+    if (persistent)
+        c.label("sender:ignores-refusals");
     if (size % b != 0 || nBlocks >= 65536 || fault != None)
         c.nontrivial(vh::fnv(desc));
     int iqn = 0;
@@ -352,7 +357,7 @@ static void scripted(Tape &t, Ctx &c, qint64 size, int b, int fault)
             case Duplicate: block(k, from, useSid, seq, payload); break;   // delivered twice; the second gets an error the sender ignores
             case Swap: {
                 QString r1 = block(k + 1, from, useSid, seq + 1, content.mid((k + 1) * b, b));
-                if (r1 != u"result")
+                if (r1 != u"result" && !persistent)
                     senderSawError = true;
                 break;
             }
@@ -387,7 +392,7 @@ static void scripted(Tape &t, Ctx &c, qint64 size, int b, int fault)
             continue;   // already delivered before block faultAt
         QString r2 = block(k, from, useSid, seq, payload);
         // a conforming sender stops and closes the bytestream when a block is refused
-        if (r2 != u"result" && !(fault == Duplicate && k == faultAt))
+        if (r2 != u"result" && !(fault == Duplicate && k == faultAt) && !persistent)
             senderSawError = true;
     }
     if (!closed && fault != NoClose)
